@@ -377,6 +377,58 @@ def nikolaev(ctx):
                   "in-flight dequeuers' late decrements drive the threshold below zero AFTER an enqueue re-armed it: the element stays stored, every later dequeue reports "
                   "empty (nikolaev_bounded_queue accepts any capacity >= 1 and documents a thread bound for lock-freedom only)" % (worst or (0, 0, 0, 0)), fn.where(ths[0]), fn=fn)
         break
+    # catchup never moves _tail backwards
+    rid_c = "SCQ.catchup-monotone"
+    ctx.rule(rid_c, "nikolaev_scq::catchup: the CAS that pulls _tail up to _head is re-attempted only while the refreshed tail is still behind the refreshed head "
+                    "(every way from a failed CAS back to the CAS passes the 'tail behind head' edge of a test over both refreshed values, decided by finite "
+                    "evaluation of the test): a failed CAS means somebody moved _tail - if pushers moved it past head, retrying would move it BACKWARDS behind "
+                    "entries that are already enqueued, and dequeue reports empty from _tail although a completed push sits one position further on")
+    for fn in flow._shapes(ctx, SCQ + "catchup"):
+        tcas = [a_["nid"] for a_ in fn.atomics() if a_["kind"] == "cas" and a_["field"].endswith("nikolaev_scq::_tail")]
+        if not tcas:
+            ctx.broken.append("nikolaev_scq::catchup: no CAS on _tail")
+            continue
+        pn = [p_["name"] for p_ in fn.params]
+
+        def behind(f_, nid, pn=pn):
+            n_ = f_.nodes[nid]
+            if n_["k"] != "bin" or n_.get("op") not in ("<", ">=", ">", "<=", "==", "!="):
+                return None
+            names = {f_.nodes[x].get("name") for x in f_.subtree(nid) if f_.nodes[x]["k"] == "ref"}
+            if not (set(pn[:2]) <= names):
+                return None
+            try:
+                dfn = {"call:diff": (lambda a, b: a - b)}
+                v_behind = evalx(f_, nid, {pn[0]: 4, pn[1]: 12, **dfn})
+                v_ahead = evalx(f_, nid, {pn[0]: 12, pn[1]: 4, **dfn})
+                v_eq = evalx(f_, nid, {pn[0]: 8, pn[1]: 8, **dfn})
+            except Unknown:
+                return None
+            if bool(v_behind) == bool(v_ahead) or bool(v_eq) != bool(v_ahead):
+                return None
+            return bool(v_behind)
+        for c_ in tcas:
+            ok, path, n = flow.between_only_via(fn, c_, c_, behind)
+            ctx.check(ok and n > 0, rid_c, SCQ + "catchup#retry|tail-behind-head", "the CAS is retried only while tail is behind head",
+                      "the _tail CAS of catchup() is re-attempted without a test that the refreshed tail is still behind the refreshed head: after pushers advanced _tail past "
+                      "head, the retry sets _tail back to head - behind entries that are already enqueued; a later try_pop that draws the slot of a still pending push "
+                      "reports empty although a completed try_push sits one position further on", fn.where(c_), fn=fn, path=flow.describe_path(fn, path))
+    # the bounded queue hands the SAME capacity to calc_remap_shift and to the SCQ operations
+    rid_r = "NQ.remap-shift-capacity"
+    ctx.rule(rid_r, "nikolaev_bounded_queue constructor: the remap shift is computed from the rounded capacity the SCQ operations are called with (the member "
+                    "_capacity / next_power_of_two(capacity)), not from the requested capacity: for a request that is not a power of two the shift is one too "
+                    "small, remap_index is no bijection any more and ring positions share slots")
+    for fn in flow._shapes(ctx, X + "nikolaev_bounded_queue::nikolaev_bounded_queue"):
+        calls = [e for e, n_ in enumerate(fn.nodes) if n_["k"] == "call" and n_.get("callee", "").endswith("calc_remap_shift")]
+        if not calls:
+            ctx.broken.append("nikolaev_bounded_queue constructor: calc_remap_shift call not found")
+            continue
+        for c_ in calls:
+            s_ = flow.srcs(fn, fn.kids(c_)[-1])
+            ok = "field:_capacity" in s_ or "call:next_power_of_two" in s_
+            ctx.check(ok, rid_r, X + "nikolaev_bounded_queue#remap-shift|rounded-capacity", "calc_remap_shift sees the rounded capacity",
+                      "calc_remap_shift is called with %s (sources: %s) instead of the rounded capacity the queues are operated with" % (
+                          fn.expr(fn.kids(c_)[-1]), ", ".join(sorted(s_))), fn.where(c_), fn=fn)
     rid3 = "SCQ.settle-slot"
     ctx.rule(rid3, "SCQ dequeue: after taking a head ticket the dequeuer leaves its slot only after settling it: consuming the value, stamping the slot "
                    "with its cycle by CAS, finding it already stamped (entry == entry_new), or finding it in a cycle that is not older than its own; only then it "
